@@ -409,6 +409,55 @@ def holeyness_long(perm):
     return ok(want != 0)
 
 
+def _perm_with_cycles(lengths, rng):
+    """a permutation with exactly these cycle lengths, on seeded positions"""
+    n = sum(lengths)
+    pos = list(range(n))
+    rng.shuffle(pos)
+    img = [0] * n
+    k = 0
+    for c in lengths:
+        cyc = pos[k:k + c]
+        for a, b in zip(cyc, cyc[1:] + cyc[:1]):
+            img[a] = b
+        k += c
+    return D.P()(img)
+
+
+@check("C11.stat.order.long")
+def order_long(item):
+    """order = least k > 0 with p^k = identity = lcm of the cycle lengths, also when that number does not fit a
+    double (many distinct prime cycle lengths)"""
+    import math
+
+    import random as _r
+
+    lengths, seed = item
+    perm = _perm_with_cycles(list(lengths), _r.Random(seed))
+    t = _t(perm)
+    seen, cyc = set(), []
+    for i in range(len(t)):
+        if i not in seen:
+            c, j = 0, i
+            while j not in seen:
+                seen.add(j)
+                j = t[j]
+                c += 1
+            cyc.append(c)
+    want = 1
+    for c in cyc:
+        want = want * c // math.gcd(want, c)
+    got = perm.order()
+    if not _is_int(got) or got != want:
+        return bad(want, got, f"Perm.order vs the lcm of the cycle lengths {sorted(cyc)}")
+    if sorted(cyc) != sorted(lengths):
+        return bad(sorted(lengths), sorted(cyc), "harness: cycle type")
+    cnt = perm.count_cycles()
+    if cnt != len(cyc):
+        return bad(len(cyc), cnt, "Perm.count_cycles on a long permutation")
+    return ok(want > 2 ** 53)
+
+
 @check("C11.stat.count_inversions.long")
 def count_inversions_long(perm):
     t = _t(perm)
@@ -1095,6 +1144,15 @@ def run(ctx):
     ctx.run("C11.fresh_result", fr, chunk=40,
             rule="all permutations <= 5 (thorough 6) + seeded block-structured ones of length 7-14: call every method, "
                  "mutate every returned list/deque/set/dict, then every method must answer as before")
+
+    # ---- orders that do not fit a double
+    primes = [2, 3, 5, 7, 11, 13, 17, 19, 23, 29, 31, 37, 41, 43, 47, 53]
+    ords = [(tuple(primes[1:15]), 1), (tuple(primes[:16]), 2), (tuple(primes[1:14]) + (4, 9, 25), 3), ((64, 81, 125, 49, 121, 13, 17), 4)]
+    for sd in range(5, 12 if quick else 40):
+        ords.append((tuple(rng.sample(primes, rng.randint(6, 14))) + tuple(rng.choice((1, 2, 4, 8, 9, 27)) for _ in range(3)), sd))
+    ctx.run("C11.stat.order.long", ords, chunk=2,
+            rule="seeded permutations of length 60-400 with prescribed cycle lengths (many distinct primes and prime powers): order = lcm of "
+                 "the cycle lengths as an exact integer; non-trivial = the order exceeds 2^53")
 
     # ---- Fenwick-tree inversion count beyond small n
     longp = _structured_long_perms()
